@@ -7,7 +7,11 @@
    append the fills, RightAlign = fills first, then the buffered blob.
    Part 2 (character level): when the text pieces are sequences of whole
    characters, those chunks are again sequences of whole characters and their
-   concatenation is `fit m M fill align` of the characters. *)
+   concatenation is `fit m M fill align` of the characters.
+   Part 3 (end of file): the unconditional law (pad, THEN truncate = `fit_code`,
+   equal to `fit` when min <= max), at most M characters emitted, and
+   preservation of any per-character predicate, in particular well-formed
+   UTF-8 scalar values (`utf8_scalar`). *)
 From Coq Require Import List NArith Bool Arith Lia.
 Import ListNotations.
 From L4 Require Import Model.Width.
